@@ -12,6 +12,7 @@ From ClapModel Require Import Base.Bytes Complete.AotTree Complete.TextTree Comp
   Complete.BashProofs Complete.BuildTexts Complete.BuildLinked Complete.BuildSkeleton.
 From ClapModel Require Import Complete.FishModel Complete.FishProofs Complete.FishBuildProofs.
 From ClapModel Require Import Complete.ZshModel Complete.ZshProofs Complete.ZshBuildProofs.
+From ClapModel Require Complete.ZshBuildConflicts.
 From ClapModel Require Complete.BashUser Complete.PathTable Complete.ElvishModel Complete.ElvishProofs Complete.PowershellModel
   Complete.PowershellProofs Complete.NushellModel Complete.NushellProofs.
 From Coq Require Import String Lia.
@@ -300,10 +301,23 @@ Proof.
     intros Hlen. exact (proj2 (fish_both c bin b Hb ws ns n' a Hr' Ha' Hpos Hprim d Hlen) l Hs).
 Qed.
 
+(** the conflicts of the built tree resolve when the user's tree is in the class of [ZshBuildConflicts] *)
+Lemma plain_cres c bin b :
+  nb c = true -> bin <> [] -> siblings_ok c -> help_free false c = true -> names_ok BashUser.bash_name c ->
+  ZshBuildConflicts.cdo_all c = true -> build (set_bin_name c bin) = Some b -> cres b.
+Proof.
+  intros Hnb Hne Hsib Hhf Hn Hcd Hb.
+  assert (Hsp : nospace c).
+  { intros n Hd. apply dd_safe_no_blank. specialize (Hn n Hd). unfold BashUser.bash_name in Hn.
+    apply andb_true_iff in Hn. exact (proj1 Hn). }
+  pose proof (ZshBuildConflicts.build_zsh_ok_conflicts c bin b Hnb Hne Hsp Hsib Hhf Hcd Hb) as Hok.
+  exact (conj (zo_conflicts_root _ _ Hok) (zo_conflicts _ _ Hok)).
+Qed.
+
 (** for hyphen-free subcommand names every hypothesis is on the user's tree ([BashUser.build_mangle_safe_plain]) *)
 Theorem six_generators_mention_spellings_plain up c t d bin ws ns n a :
   nb c = true -> dd_safe bin = true -> bin <> [] -> siblings_ok c -> help_free false c = true ->
-  names_ok BashUser.bash_name c -> NushellLexProofs.args_all ZshBuildProofs.no_bl c = true ->
+  names_ok BashUser.bash_name c -> ZshBuildConflicts.cdo_all c = true ->
   reach c ws ns n -> In a (c_args n) -> a_is_positional a = false -> arg_has_primary a ->
   (forall s, spelled_short a s -> six_mention_short up c t d bin ws ns a s) /\
   (forall l, spelled_long a l -> six_mention_long up c t d bin ws ns a l).
@@ -312,7 +326,7 @@ Proof.
   destruct (build (set_bin_name c bin)) as [b|] eqn:Hb; [|exfalso; exact (build_total _ Hb)].
   exact (six_generators_mention_spellings up c t d bin b ws ns n a Hnb Hb
            (BashUser.build_mangle_safe_plain c bin b Hb Hs Hne Hsib Hhf Hn)
-           (nobl_cres b (ZshBuildProofs.build_nobl c bin b Hb Hbl)) Hr Ha Hpos Hprim).
+           (plain_cres c bin b Hnb Hne Hsib Hhf Hn Hbl Hb) Hr Ha Hpos Hprim).
 Qed.
 
 (** determinism: all six generators are functions of (command, texts, bin name) *)
@@ -365,7 +379,7 @@ Qed.
 
 Theorem six_generators_mention_spellings_plain_conj up c t d bin ws ns n a :
   nb c = true -> dd_safe bin = true -> bin <> [] -> siblings_ok c -> help_free false c = true ->
-  names_ok BashUser.bash_name c -> NushellLexProofs.args_all ZshBuildProofs.no_bl c = true ->
+  names_ok BashUser.bash_name c -> ZshBuildConflicts.cdo_all c = true ->
   reach c ws ns n -> In a (c_args n) -> a_is_positional a = false -> arg_has_primary a ->
   (forall s, spelled_short a s ->
      bash_mentions c bin ns ([45] ++ s) /\
@@ -386,7 +400,7 @@ Proof.
   destruct (build (set_bin_name c bin)) as [b|] eqn:Hb; [|exfalso; exact (build_total _ Hb)].
   exact (six_generators_mention_spellings_conj up c t d bin b ws ns n a Hnb Hb
            (BashUser.build_mangle_safe_plain c bin b Hb Hs Hne Hsib Hhf Hn)
-           (nobl_cres b (ZshBuildProofs.build_nobl c bin b Hb Hbl)) Hr Ha Hpos Hprim).
+           (plain_cres c bin b Hnb Hne Hsib Hhf Hn Hbl Hb) Hr Ha Hpos Hprim).
 Qed.
 
 Theorem six_mentions_meaning up c t d bin ws ns a w word entry ok line :
